@@ -2,11 +2,13 @@
     bool/option/list/prod/unit/sumbool map to OCaml's; numbers stay inductive).
     Run from /verif/ocaml: writes model.ml / model.mli there. *)
 From Coq Require Extraction ExtrOcamlBasic.
-From DivanV Require Import Base.Res Generated.Consts Model.Timestamp.
+From DivanV Require Import Base.Res Generated.Consts Model.Timestamp Model.Pool.
 Extraction Language OCaml.
 Set Extraction KeepSingleton.
 Extraction "model.ml"
   N.add N.mul N.div N.modulo N.sub N.compare N.eqb N.ltb N.leb N.of_nat N.to_nat
   Z.add Z.mul Z.sub Z.compare Z.of_N Z.to_N Z.opp Z.abs_N
   tsc_duration fine_from_duration measure_precision prec_consumed prec_init
-  tsc_sb dur_sb prec_sb.
+  tsc_sb dur_sb prec_sb
+  PoolM.init PoolM.step PoolM.run PoolM.final PoolM.candidate_labels PoolM.enabled_labels PoolM.inv_all
+  PoolM.once_per_index PoolM.published PoolM.inner_measure PoolM.outer_measure.
